@@ -684,7 +684,8 @@ def check(rep, tier, seed, driver):
                 "(observe / caller overwrites its arrays afterwards / returned arrays overwritten) with follow-up operations. A case is "
                 "non-trivial when at least one argument is an ndarray that pyribs could alias without copying (exact / view / noncontig) "
                 "or the call returns arrays, and the object is non-empty. Read-path cases: random accepted-write histories, non-trivial "
-                "when a cell is overwritten and >= 2 elites are stored.")
+                "when a cell is overwritten and >= 2 elites are stored." 
+                "; plus: AdamOpt with the non-default l2_coeff; get_field / iterelites on frames derived by pandas operations (reversed, sorted, filtered, shuffled); after a write through a returned value everything the object reports is compared, not only data()")
     cases = []
     cdir = os.path.join(CORPUS, "C12")
     if os.path.isdir(cdir):
